@@ -150,6 +150,9 @@ func (s *Server) aofshrink() {
 
 				}()
 				if len(aofbuf) > maxchunk {
+					if err := verifFault(s, "shrink.chunk.write"); err != nil {
+						return err
+					}
 					if _, err := f.Write(aofbuf); err != nil {
 						return err
 					}
